@@ -486,3 +486,271 @@ Proof.
   - injection He as <-. auto.
   - injection He as <-. auto.
 Qed.
+
+(** * 4. The exact invariant *)
+
+Definition is_beginb (x : sev) : bool := match se_ev x with TEBlockingBegin _ => true | _ => false end.
+Definition is_bendb (X : bool) (e : sev) : bool :=
+  match se_ev e with TEBlockingEnd => Bool.eqb (se_client e) X | _ => false end.
+
+(** the pending BlockingBegin [x] of side [X] (fired from the action of record [j], not yet
+    reported): the simulator is one [replay_begin_r] ahead of the replay [R X] of the reports, and
+    blocks (if at all) until after the instant of [x] *)
+Definition pnormal (R : bool -> bdesc) (H : list hrec) (st : sim) (X : bool) (x : sev) (j : nat) : Prop :=
+  exists a, act_of H j (cmach x) = Some a /\
+    dsim st X = replay_begin_r (R X) (se_time x) a /\
+    (forall u fl, dsim st X = Some (u, fl) -> (se_time x < u)%Z).
+
+(** inside one [pick_next] only: a zero-duration replacing block has just fired; the side's expiry is
+    "now", the BlockingEnd is the next event to be returned *)
+Definition pzomb (H : list hrec) (st : sim) (X : bool) (x : sev) (j : nat) : Prop :=
+  exists a fl, act_of H j (cmach x) = Some a /\ zero_replace a = true /\
+    dsim st X = Some (se_time x, fl) /\
+    (forall u fl', dsim st (negb X) = Some (u, fl') -> (se_time x < u)%Z).
+
+(** [G] is the ghost of [tinv]: the queued completions (at most one in all) with their records *)
+Inductive einvR (mid : bool) (R : bool -> bdesc) (H : list hrec) (st : sim) (G : bool -> list (sev * nat)) : Prop :=
+| einv0 : G true = [] -> G false = [] -> (forall X, dsim st X = R X) -> einvR mid R H st G
+| einv1 : forall X x j, G X = [(x, j)] -> G (negb X) = [] -> dsim st (negb X) = R (negb X) ->
+    ((is_beginb x = false /\ dsim st X = R X) \/
+     (is_beginb x = true /\ (pnormal R H st X x j \/ (mid = true /\ pzomb H st X x j)))) ->
+    einvR mid R H st G.
+
+Definition Rf (H : list hrec) (f : nat -> nat) : bool -> bdesc := fun X => replayX X f H (length H).
+Definition Rp (H : list hrec) (f : nat -> nat) (e : sev) : bool -> bdesc :=
+  fun X => if is_bendb X e then None else replayX X f H (length H).
+
+Lemma G_empty : forall G : bool -> list (sev * nat), G true = [] -> G false = [] -> forall X, G X = [].
+Proof. intros G Ht Hf [|]; assumption. Qed.
+
+Lemma pnormal_same_d : forall R H st st1 X x j, same_d st st1 -> pnormal R H st X x j -> pnormal R H st1 X x j.
+Proof.
+  intros R H st st1 X x j Hd (a & A1 & A2 & A3). exists a. split; [exact A1|]. rewrite !Hd. auto.
+Qed.
+
+Lemma einvR_same_d : forall mid R H st st1 G, same_d st st1 -> einvR mid R H st G -> einvR mid R H st1 G.
+Proof.
+  intros mid R H st st1 G Hd [H1 H2 H3|X x j H1 H2 H3 H4].
+  - apply einv0; [exact H1|exact H2|]. intros X. rewrite Hd. apply H3.
+  - apply (einv1 _ _ _ _ _ X x j); [exact H1|exact H2|rewrite Hd; exact H3|].
+    destruct H4 as [[B E]|[B [P|[M (a & fl & Z1 & Z2 & Z3 & Z4)]]]].
+    + left. split; [exact B|]. rewrite Hd. exact E.
+    + right. split; [exact B|]. left. eapply pnormal_same_d; eassumption.
+    + right. split; [exact B|]. right. split; [exact M|]. exists a, fl. rewrite !Hd. auto.
+Qed.
+
+(** with [tinv], a slot fires only when nothing is queued *)
+Lemma G_nil_at_fire : forall H st t f G t1,
+  tinv H st t f G noex -> (forall Y y, In y (cqs st Y) -> (t1 < se_time y)%Z) -> (t <= t1)%Z ->
+  forall Y, G Y = [].
+Proof.
+  intros H st t f G t1 I Hs Ht Y. destruct (G Y) as [|[x0 j0] l] eqn:E; [reflexivity|exfalso].
+  assert (Hin : In (x0, j0) (G Y)) by (rewrite E; left; reflexivity).
+  pose proof (Hs Y x0 (G_in_cqs _ _ _ _ _ _ _ _ I Hin)) as L1.
+  destruct (ti_qcause _ _ _ _ _ _ I Y x0 j0 Hin) as (_ & _ & L2). lia.
+Qed.
+
+Lemma find_uniq : forall (l : list taction) a,
+  In a l -> (forall a', In a' l -> taction_machine a' = taction_machine a -> a' = a) ->
+  find (fun a' => taction_machine a' =? taction_machine a) l = Some a.
+Proof.
+  induction l as [|h l IH]; intros a Hin Hu; [destruct Hin|]. cbn [find].
+  destruct (N.eqb_spec (taction_machine h) (taction_machine a)) as [E|E].
+  - f_equal. apply Hu; [left; reflexivity|exact E].
+  - destruct Hin as [->|Hin]; [contradiction|]. apply IH; [exact Hin|].
+    intros a' Ha'. apply Hu. right. exact Ha'.
+Qed.
+
+Lemma act_of_uniq : forall H j rj a, huniq H -> nth_error H j = Some rj -> In a (h_acts rj) ->
+  act_of H j (taction_machine a) = Some a.
+Proof.
+  intros H j rj a HU Hj Ha. unfold act_of. rewrite Hj. apply find_uniq; [exact Ha|].
+  intros a' Ha' E. apply (HU rj a' a); [eapply nth_error_In; exact Hj|exact Ha'|exact Ha|exact E].
+Qed.
+
+Lemma replay_begin_live : forall b t a u fl,
+  zero_replace a = false -> (forall u0 fl0, b = Some (u0, fl0) -> (t < u0)%Z) ->
+  replay_begin b t a = Some (u, fl) -> (t < u)%Z.
+Proof.
+  intros b t a u fl Hz Hb H.
+  destruct a as [m tm|m tmo by_ rp|m tmo dur by_ rp|m dur rp]; cbn [replay_begin] in H; try (eapply Hb; exact H).
+  cbn [zero_replace] in Hz.
+  destruct b as [[u0 fl0]|].
+  - specialize (Hb u0 fl0 eq_refl). destruct rp.
+    + injection H as <- _. destruct (N.eqb_spec dur 0); [discriminate|lia].
+    + destruct (Z.ltb_spec u0 (t + Z.of_N dur)); injection H as <- _; lia.
+  - destruct (N.ltb_spec 0 dur) as [L|L]; cbn [orb] in H.
+    + injection H as <- _. lia.
+    + destruct rp; [|discriminate]. destruct (N.eqb_spec dur 0); [discriminate|lia].
+Qed.
+
+Lemma replay_begin_zero_replace : forall b t m tmo dur by_ rp,
+  zero_replace (TBlockOutgoing m tmo dur by_ rp) = true ->
+  replay_begin b t (TBlockOutgoing m tmo dur by_ rp) = Some (t, by_).
+Proof.
+  intros b t m tmo dur by_ rp Hz. cbn [zero_replace] in Hz. apply andb_prop in Hz. destruct Hz as [Hd ->].
+  apply N.eqb_eq in Hd. subst dur. cbn [replay_begin].
+  replace (t + Z.of_N 0)%Z with t by lia.
+  destruct b as [[u fl]|]; [reflexivity|]. rewrite Bool.orb_true_r. reflexivity.
+Qed.
+
+Lemma is_bendb_spec : forall X e, is_bendb X e = true <-> is_bend X e.
+Proof.
+  intros X e. unfold is_bendb, is_bend. destruct (se_ev e); split; try discriminate; try (intros [? _]; discriminate).
+  - intros E. split; [reflexivity|apply Bool.eqb_prop; exact E].
+  - intros [_ ->]. apply Bool.eqb_reflx.
+Qed.
+
+Lemma is_bendb_not_end : forall X e, se_ev e <> TEBlockingEnd -> is_bendb X e = false.
+Proof. intros X e H. unfold is_bendb. destruct (se_ev e); try reflexivity. contradiction. Qed.
+
+Lemma Rp_not_end : forall H f e, se_ev e <> TEBlockingEnd -> forall X, Rp H f e X = Rf H f X.
+Proof. intros H f e Hne X. unfold Rp, Rf. rewrite (is_bendb_not_end X e Hne). reflexivity. Qed.
+
+Lemma tinv_pop_move : forall H st t f G st' e,
+  tinv H st t f G noex -> is_complb e = true -> same_slots st st' ->
+  Permutation (cqs st (se_client e)) (e :: cqs st' (se_client e)) ->
+  Permutation (cqs st' (negb (se_client e))) (cqs st (negb (se_client e))) ->
+  (t <= se_time e)%Z -> tinv H st' (se_time e) f G (ex_of e).
+Proof.
+  intros H st t f G st' e I He Hs Hp1 Hp2 Ht.
+  eapply tinv_move; [exact I|exact Hs| |exact Ht].
+  intros X. cbn [noex app]. unfold ex_of. rewrite He. cbn [andb].
+  destruct (Bool.eqb (se_client e) X) eqn:EX.
+  - apply Bool.eqb_prop in EX. subst X. cbn [app]. exact Hp1.
+  - assert (X = negb (se_client e)) as -> by (destruct X, (se_client e); try reflexivity; discriminate).
+    cbn [app]. apply Permutation_sym. exact Hp2.
+Qed.
+
+(** an event other than a BlockingEnd returned from a state satisfying the invariant: no zero-duration
+    replacing block is in progress (its expiry "now" would have been reported first) *)
+Lemma einvR_leave_queue : forall H st t f G st' e,
+  tinv H st t f G noex -> einvR true (Rf H f) H st G -> same_d st st' ->
+  (forall Y u fl, dsim st Y = Some (u, fl) -> (t < u)%Z) -> se_ev e <> TEBlockingEnd ->
+  einvR false (Rp H f e) H st' G.
+Proof.
+  intros H st t f G st' e I E Hd Hlive Hne.
+  assert (HR : forall X, Rp H f e X = Rf H f X) by (apply Rp_not_end; exact Hne).
+  destruct E as [H1 H2 H3|X x j H1 H2 H3 H4].
+  - apply einv0; [exact H1|exact H2|]. intros X. rewrite Hd, HR. apply H3.
+  - apply (einv1 _ _ _ _ _ X x j); [exact H1|exact H2|rewrite Hd, HR; exact H3|].
+    destruct H4 as [[B Ex]|[B [(a & A1 & A2 & A3)|[_ (a & fl & Z1 & Z2 & Z3 & Z4)]]]].
+    + left. split; [exact B|]. rewrite Hd, HR. exact Ex.
+    + right. split; [exact B|]. left. exists a. split; [exact A1|]. rewrite !Hd, HR. auto.
+    + exfalso. pose proof (Hlive X _ _ Z3) as L.
+      assert (Hin : In (x, j) (G X)) by (rewrite H1; left; reflexivity).
+      destruct (ti_qcause _ _ _ _ _ _ I X x j Hin) as (_ & _ & L2). lia.
+Qed.
+
+Theorem einv_run : forall st t r st', pn_runE st t r st' ->
+  forall H f G, huniq H -> tinv H st t f G noex -> einvR true (Rf H f) H st G ->
+  match r with
+  | None => True
+  | Some e => exists G', tinv H st' (se_time e) f G' (ex_of e) /\
+      (forall X p, In p (G X) -> In p (G' X)) /\
+      einvR false (Rp H f e) H st' G' /\
+      (forall X x j, G X = [(x, j)] -> is_beginb x = true -> pnormal (Rf H f) H st X x j -> ~ is_bend X e)
+  end.
+Proof.
+  intros st t r st' R.
+  induction R as [st t|st t st1 t1 r st' Hs Hc Ht _ Hd _ IH
+                 |st t st1 t1 r st' X mi a x Hn Hs1 Hs2 Hp1 Hp2 Hcm Htx Hcx Ht _ Hstrict Hb1 Hex Hlive _ IH
+                 |st t e st' u fl He Hs Hc Ht _ Hu Hue Hnone Hbo
+                 |st t e st' He Hne Hs Hc Ht _ Hd Hlive
+                 |st t e st' He Hs Hp1 Hp2 Ht _ Hd Hlive]; intros H f G HU I E.
+  - exact Logic.I.
+  - (* skip *)
+    assert (I1 : tinv H st1 t1 f G noex).
+    { eapply tinv_move; [exact I|exact Hs| |exact Ht].
+      intros X. cbn [noex app]. apply Permutation_sym. apply Hc. }
+    specialize (IH H f G HU I1 (einvR_same_d _ _ _ _ _ _ Hd E)).
+    destruct r as [e|]; [|exact Logic.I].
+    destruct IH as (G' & J1 & J2 & J3 & J4). exists G'. split; [exact J1|]. split; [exact J2|]. split; [exact J3|].
+    intros Y y j HG Hb Hp. apply (J4 Y y j HG Hb). eapply pnormal_same_d; eassumption.
+  - (* a slot fires *)
+    pose proof (G_nil_at_fire _ _ _ _ _ _ I Hstrict Ht) as Hnil.
+    assert (Hd0 : forall Y, dsim st Y = Rf H f Y).
+    { destruct E as [_ _ H3|Y y j H1 _ _ _]; [exact H3|]. rewrite Hnil in H1. discriminate. }
+    destruct (tinv_fire_x _ _ _ _ _ _ _ _ _ _ _ I Hn Hs1 Hs2 Hp1 Hp2 Hcm Htx Hcx Ht) as (j & rj & Hj & Haj & I').
+    set (G1 := fun Y => if Bool.eqb Y X then (x, j) :: G Y else G Y) in *.
+    assert (HG1 : G1 X = [(x, j)]).
+    { unfold G1. rewrite Bool.eqb_reflx, Hnil. reflexivity. }
+    assert (HG2 : G1 (negb X) = []).
+    { unfold G1. replace (Bool.eqb (negb X) X) with false by (destruct X; reflexivity). apply Hnil. }
+    assert (E1 : einvR true (Rf H f) H st1 G1).
+    { apply (einv1 _ _ _ _ _ X x j HG1 HG2); [rewrite Hb1; apply Hd0|].
+      destruct a as [m tm|m tmo by_ rp|m tmo dur by_ rp|m dur rp]; cbn [completes] in Hcm; try contradiction.
+      - left. destruct Hcm as (Hev & _). split; [unfold is_beginb; rewrite Hev; reflexivity|].
+        rewrite Hex. cbn [replay_begin]. apply Hd0.
+      - right. split; [unfold is_beginb; rewrite Hcm; reflexivity|].
+        assert (Hact : act_of H j (cmach x) = Some (TBlockOutgoing m tmo dur by_ rp)).
+        { replace (cmach x) with (taction_machine (TBlockOutgoing m tmo dur by_ rp))
+            by (unfold cmach; rewrite Hcm; reflexivity).
+          eapply act_of_uniq; eassumption. }
+        destruct (zero_replace (TBlockOutgoing m tmo dur by_ rp)) eqn:Ez.
+        + right. split; [reflexivity|]. exists (TBlockOutgoing m tmo dur by_ rp), by_.
+          split; [exact Hact|]. split; [exact Ez|]. split.
+          * rewrite Hex, Htx. apply replay_begin_zero_replace. exact Ez.
+          * intros u0 fl0 Hs0. rewrite Hb1 in Hs0. rewrite Htx. eapply Hlive. exact Hs0.
+        + left. exists (TBlockOutgoing m tmo dur by_ rp). split; [exact Hact|]. split.
+          * unfold replay_begin_r. rewrite Ez, Hex, Hd0, Htx. reflexivity.
+          * intros u0 fl0 Hs0. rewrite Hex in Hs0. rewrite Htx.
+            eapply replay_begin_live; [exact Ez| |exact Hs0]. intros u1 fl1 Hs1'. eapply Hlive. exact Hs1'. }
+    specialize (IH H f G1 HU I' E1).
+    destruct r as [e|]; [|exact Logic.I].
+    destruct IH as (G' & J1 & J2 & J3 & J4). exists G'. split; [exact J1|]. split; [|split; [exact J3|]].
+    + intros Y p Hp. rewrite Hnil in Hp. destruct Hp.
+    + intros Y y j0 HG. rewrite Hnil in HG. discriminate.
+  - (* blocking expiry *)
+    exists G. split; [|split; [auto|split]].
+    + eapply tinv_move; [exact I|exact Hs| |exact Ht].
+      intros X. rewrite (ex_of_other _ _ (bend_not_compl _ He)). cbn [noex app]. apply Permutation_sym. apply Hc.
+    + assert (RpE : Rp H f e (se_client e) = None).
+      { unfold Rp, is_bendb. rewrite He, Bool.eqb_reflx. reflexivity. }
+      assert (RpO : Rp H f e (negb (se_client e)) = Rf H f (negb (se_client e))).
+      { unfold Rp, Rf, is_bendb. rewrite He.
+        replace (Bool.eqb (se_client e) (negb (se_client e))) with false by (destruct (se_client e); reflexivity).
+        reflexivity. }
+      destruct E as [H1 H2 H3|X x j H1 H2 H3 H4].
+      * apply einv0; [exact H1|exact H2|]. intros X.
+        destruct (negb_cases (se_client e) X) as [->| ->]; [rewrite Hnone, RpE; reflexivity|].
+        rewrite Hbo, RpO. apply H3.
+      * assert (Hin : In (x, j) (G X)) by (rewrite H1; left; reflexivity).
+        pose proof (Hue X x (G_in_cqs _ _ _ _ _ _ _ _ I Hin)) as Lx.
+        apply (einv1 _ _ _ _ _ X x j H1 H2).
+        -- destruct (negb_cases (se_client e) (negb X)) as [Eq|Eq]; rewrite Eq.
+           ++ rewrite Hnone, RpE. reflexivity.
+           ++ rewrite Hbo, RpO, <- Eq. exact H3.
+        -- destruct (negb_cases (se_client e) X) as [EX|EX].
+           ++ (* the end of the side with the pending completion *)
+              destruct H4 as [[B Ex]|[B [(a & A1 & A2 & A3)|[_ (a & fl0 & Z1 & Z2 & Z3 & Z4)]]]].
+              ** left. split; [exact B|]. rewrite EX, Hnone, RpE. reflexivity.
+              ** exfalso. rewrite EX in A3. specialize (A3 _ _ Hu). lia.
+              ** right. split; [exact B|]. left. exists a. split; [exact Z1|]. rewrite EX, Hnone, RpE.
+                 split; [unfold replay_begin_r; rewrite Z2; reflexivity|]. intros u0 fl1 Hx. discriminate.
+           ++ (* the end of the other side *)
+              assert (EX' : se_client e = negb X) by (rewrite EX; destruct (se_client e); reflexivity).
+              assert (HRX : Rp H f e X = Rf H f X).
+              { rewrite EX. exact RpO. }
+              assert (HdX : dsim st' X = dsim st X).
+              { rewrite EX. exact Hbo. }
+              destruct H4 as [[B Ex]|[B [(a & A1 & A2 & A3)|[_ (a & fl0 & Z1 & Z2 & Z3 & Z4)]]]].
+              ** left. split; [exact B|]. rewrite HdX, HRX. exact Ex.
+              ** right. split; [exact B|]. left. exists a. split; [exact A1|]. rewrite !HdX, HRX. auto.
+              ** exfalso. rewrite EX' in Hu. specialize (Z4 _ _ Hu). lia.
+    + intros X x j HG Hb (a & A1 & A2 & A3) [_ Hside].
+      assert (Hin : In (x, j) (G X)) by (rewrite HG; left; reflexivity).
+      pose proof (Hue X x (G_in_cqs _ _ _ _ _ _ _ _ I Hin)) as Lx.
+      rewrite Hside in Hu. specialize (A3 _ _ Hu). lia.
+  - (* another event leaves the queue *)
+    exists G. split; [|split; [auto|split]].
+    + eapply tinv_move; [exact I|exact Hs| |exact Ht].
+      intros X. rewrite (ex_of_other _ _ He). cbn [noex app]. apply Permutation_sym. apply Hc.
+    + eapply einvR_leave_queue; eassumption.
+    + intros X x j _ _ _ [Hend _]. contradiction.
+  - (* a completion leaves the queue *)
+    exists G. split; [|split; [auto|split]].
+    + eapply tinv_pop_move; eassumption.
+    + eapply einvR_leave_queue; try eassumption. apply complb_not_bend. exact He.
+    + intros X x j _ _ _ [Hend _]. apply (complb_not_bend _ He). exact Hend.
+Qed.
